@@ -252,7 +252,6 @@ Lemma edge_tolerance_full : forall nn_iter, iter_spec nn_iter ->
       exists e, match_edge QN gc nn_iter es (Some (t, u)) lookup truck_ok rcq p = Ok e
                 /\ adm_minimal es truck_ok vc p e)
   /\ (forall c, In c es -> adm truck_ok vc c = true ->
-      in_range p = true -> (forall c, In c es -> in_range (cpt c) = true) ->
       exists e, match_edge QN gc nn_iter es None lookup truck_ok rcq p = Ok e
                 /\ adm_minimal es truck_ok vc p e).
 Proof.
